@@ -25,14 +25,43 @@ WARM_DEPTH = {"quick": 2, "thorough": 3}      # histories starting from the stat
 _fresh_memo = {}
 
 
+def reference_probes(w):
+    """Probe values according to the reference evaluator under the reference definitions, or None."""
+    if w.rm is None:
+        return None
+    from mxmc.refsem import Evaluator
+    from mxmc.session import render
+    ev = Evaluator(w.rm)
+    out = []
+    for p in w.root["probes"]:
+        try:
+            r = ev.eval(p["sp"], p["c"], tuple(p.get("args", [])))
+        except Exception:
+            return None
+        if r[0] != "ok" and type(r[1]).__name__ in ("NoLinearisation", "KeyError", "RefError", "Inapplicable"):
+            return None     # the reference model does not define this state
+        out.append(("ok", render(r[1])) if r[0] == "ok" else ("exc", "FormulaError:" + type(r[1]).__name__))
+    return out
+
+
 def fresh_probes(rootname, edits):
     key = (rootname, json.dumps(edits, sort_keys=True))
     r = _fresh_memo.get(key)
     if r is None:
         w = World(rootname)
+        okall = True
         for op in edits:
-            w.apply(op, track_ref=False)
+            if w.apply(op, track_ref=True)[0] != "ok":
+                okall = False
         r = w.probe_all()
+        # absolute oracle for the twin: where the reference model defines the edited model (all edits accepted
+        # and tracked), the twin's values must equal the reference evaluator's
+        # (the reference model tracks definitions; what an edit does to *inputs* of the edited cells and how
+        # renames re-point references is not modelled - such histories are left to the differential clause)
+        simple = not any(op["op"] in ("set_input", "rename_space", "rename_cells", "add_bases", "del_cells", "del_space")
+                         for op in edits)   # (deleted objects: the reference model names objects by path, not identity)
+        ref = reference_probes(w) if (okall and simple) else None
+        r = (r, ref)
         if len(_fresh_memo) > 200000:
             _fresh_memo.clear()
         _fresh_memo[key] = r
@@ -45,8 +74,16 @@ def run_history(rootname, hist, warm=False):
     canon = canon_world(w)
     live = w.probe_all()
     edits = [op for op in hist if O.is_edit(op)]
-    fresh = fresh_probes(rootname, edits)
+    fresh, ref = fresh_probes(rootname, edits)
     viols = []
+    if ref is not None:
+        cmp = [(a, b) for a, b in zip(fresh, ref)
+               if a != b and not (a[0] == "exc" and b[0] == "exc")]   # only the fact of failing is compared for errors
+        if cmp:
+            i = [k for k, (a, b) in enumerate(zip(fresh, ref)) if (a, b) == cmp[0]][0]
+            viols.append({"clause": "fresh==reference", "case": {"root": rootname, "history": edits, "warm": False},
+                          "observed": {"probe": ROOTS[rootname]["probes"][i], "edits_only_model": fresh[i]},
+                          "expected": {"reference_evaluator": ref[i]}})
     if live != fresh:
         bad = [i for i, (a, b) in enumerate(zip(live, fresh)) if a != b]
         viols.append({"clause": "live==fresh", "case": {"root": rootname, "history": hist, "warm": warm},
